@@ -208,6 +208,7 @@ fn transform(neutral: &Trace, c: u8, loc: &mut Local) -> Vec<Exp> {
                     break;
                 }
             }
+            Obs::Raw(_) => {}
         }
     }
     out
